@@ -139,6 +139,31 @@ Redef ==
    CaseOf("C07/setidx-undefined", <<SetIdx("a", I("0"), I("1"))>>), CaseOf("C07/copy-undefined", <<Def1("s", SliceLit("int", <<>>)), Def1("n", CopyE("a", Var("s")))>>),
    CaseOf("C07/assign-blocklocal-after", <<If1(BoolL(TRUE), <<Def1("a", I("1"))>>), Asg1("a", I("2"))>>)}
 
-All == VarPairs \cup FuncPairs \cup PlaceCases \cup Redef \cup Redef2
+\* every loop shape (with and without a definition in its header) x form of a definition in its body x what the enclosing block does with that
+\* name afterwards x where the loop stands: a body's names end with the body, whatever the header looks like
+LoopShapes == {"for3def", "for3asg", "for3noinit", "for3nopost", "forcond", "forinf", "range"}
+LoopOf(shape, body) ==
+  CASE shape = "for3def" -> <<For3(Def1("k", I("0")), CmpE("<", Var("k"), I("2")), Inc("k"), body)>>
+    [] shape = "for3asg" -> <<For3(Asg1("xi", I("0")), CmpE("<", Var("xi"), I("2")), Inc("xi"), body)>>
+    [] shape = "for3noinit" -> <<Asg1("xi", I("0")), For3(NoneN, CmpE("<", Var("xi"), I("2")), Inc("xi"), body)>>
+    [] shape = "for3nopost" -> <<For3(Asg1("xi", I("0")), CmpE("<", Var("xi"), I("2")), NoneN, body \o <<Inc("xi")>>)>>
+    [] shape = "forcond" -> <<Asg1("xi", I("0")), ForCond(CmpE("<", Var("xi"), I("2")), body \o <<Inc("xi")>>)>>
+    [] shape = "forinf" -> <<ForInf(body \o <<BreakS>>)>>
+    [] shape = "range" -> <<RangeS("ri", "rv", Var("si"), body)>>
+Afters == {"none", "use", "assign", "redef", "again", "useinlater"}
+AfterOf(a, shape, F, G) ==
+  CASE a = "none" -> <<>> [] a = "use" -> <<UseV>> [] a = "assign" -> <<Asg1("v", I("5"))>> [] a = "redef" -> <<DefVF(G), UseV>>
+    [] a = "again" -> LoopOf(shape, <<DefVF(G), UseV>>) [] a = "useinlater" -> LoopOf(shape, <<UseV>>)
+Places == {"top", "func", "if", "loop"}
+PlaceOf(pl, ss) ==
+  CASE pl = "top" -> ss [] pl = "func" -> <<Func("ctxf", <<>>, <<>>, ss), ExprS(CallE("ctxf", <<>>))>> [] pl = "if" -> <<If1(Var("xb"), ss)>>
+    [] pl = "loop" -> <<For3(Def1("o", I("0")), CmpE("<", Var("o"), I("1")), Inc("o"), ss)>>
+LoopScope == {CaseOf("C07/loopscope/" \o sh \o "/" \o F \o "-" \o G \o "/" \o a \o "/" \o pl,
+                     <<Func("two", <<>>, <<"int", "int">>, <<RetS(<<I("1"), I("2")>>)>>), Func("one", <<>>, <<"int">>, <<RetS(<<I("1")>>)>>),
+                       Def1("xb", BoolL(TRUE)), Def1("xi", I("0")), Def1("si", SliceLit("int", <<I("4"), I("5")>>))>>
+                     \o PlaceOf(pl, LoopOf(sh, <<DefVF(F), UseV>>) \o AfterOf(a, sh, F, G)) \o <<Print1(StrL("end"))>>)
+              : sh \in LoopShapes, F \in Forms, G \in {"short", "callmulti"}, a \in Afters, pl \in Places}
+
+All == LoopScope \cup VarPairs \cup FuncPairs \cup PlaceCases \cup Redef \cup Redef2
 ASSUME ndJsonSerialize("fam.ndjson", SetToSeq(All))
 =============================================================================
